@@ -237,6 +237,8 @@ inline int sim_main(int argc, char **argv)
   unsigned enum_every = 0; // enumerate single faults for every k-th fault-free plan
   unsigned distinct_sample = 1;
   std::uint64_t hashes_below = 0;
+  bool announce = false; // print the index of every run before it starts (used to locate a death
+                         // that the sanitizer's death callback did not report)
   unsigned run_timeout = 10; // seconds of wall clock per run (watchdog only, never a verdict input)
   for (int i = 1; i < argc; ++i)
   {
@@ -265,6 +267,8 @@ inline int sim_main(int argc, char **argv)
       budget = std::stod(next());
     else if (a == "--hashes")
       hashes = true;
+    else if (a == "--announce")
+      announce = true;
     else if (a == "--hashes-below")
       hashes_below = std::stoull(next());
     else if (a == "--trace")
@@ -361,6 +365,11 @@ inline int sim_main(int argc, char **argv)
       break;
     detail::current_run() = static_cast<long>(i);
     detail::current_fault() = "";
+    if (announce)
+    {
+      std::printf("R %llu\n", static_cast<unsigned long long>(i));
+      std::fflush(stdout);
+    }
     Plan p = detail::make_plan(seed, i, thorough);
     Ctx ctx;
     ctx.probes = &probes;
